@@ -44,3 +44,23 @@ def children(pkg):
         p = s.getPackage()
         out.setdefault(p.getName(), (p, False))
     return out
+
+
+def gen_valid_model(rnd, gen, attempts=10):
+    """Generate models until the real parser accepts one (Bob refuses some generated shapes by design, e.g. incompatible
+    provided variants).  Returns None if none was accepted."""
+    import shutil
+    common.repo_path_setup()
+    from bob.errors import BobError
+    from . import projgen
+    for _ in range(attempts):
+        model = gen()
+        with common.scratch("val", root="/dev/shm/bobverif" if os.path.isdir("/dev/shm") else None) as d:
+            projgen.write_project(d, model)
+            try:
+                with project(d, defines=model.get("defines")) as (rs, ps):
+                    list(ps.queryPackagePath("//*"))
+                return model
+            except BobError:
+                continue
+    return None
